@@ -23,3 +23,5 @@ open Just.Props.C05
 #print axioms parseLoop_fuel
 #print axioms bind_nil_words
 #print axioms positional_args_sticky
+#print axioms override_whatever_the_value
+#print axioms dir_recipe_form
